@@ -27,7 +27,7 @@ Definition dec_pkt (x : sx) : option pkt :=
   | SL [SZ 0; a] => do a' <- dec_attrs a; Some (PMessage a')
   | SL [SZ 1; a] => do a' <- dec_attrs a; Some (PPresence a')
   | SL [SZ 2; a; ns; any] =>
-      do a' <- dec_attrs a; do ns' <- as_opt as_s ns; do any' <- as_b any;
+      do a' <- dec_attrs a; do ns' <- as_opt as_s ns; do any' <- as_opt as_s any;
       Some (PIQ a' ns' any')
   | SL [SZ 3; SZ k] => Some (POther (Z.to_N k))
   | _ => None
